@@ -24,6 +24,33 @@ ASSUMPTIONS = ["G6: user code completes a model only through Model.complete()", 
 SLOC = (CORE + 'Model', '_status')
 
 
+def _status_owner(a):
+    """The object whose _status the atom reads."""
+    from sa.terms import ACmp, FNot, Attr as _A, App as _App
+    while isinstance(a, FNot):
+        a = a.f
+    b = a.base if isinstance(a, ACmp) else None
+    if isinstance(b, _App) and b.fn == '@t':
+        b = b.args[0]
+    return b.base if isinstance(b, _A) else None
+
+
+def _own_model(a) -> bool:
+    """The status that is tested is the scheduler's / driver's own model: not a model reached through the system that is
+    being scheduled (`sys.model` may be another, still running model)."""
+    from sa.terms import term_symbols
+    o = _status_owner(a)
+    if o is None:
+        return True
+    for x in term_symbols(o):
+        if isinstance(x, Sym) and x.name.rstrip("'") in _LOOP_VARS:
+            return False
+    return True
+
+
+_LOOP_VARS = set()
+
+
 def _running_edges(cx, events):
     """cond events among `events` that establish 'model running' on this path."""
     out = []
@@ -32,7 +59,7 @@ def _running_edges(cx, events):
             continue
         f = e.data['formula']
         for a in atoms_of(f):
-            k = status_atom_kind(cx, a)
+            k = status_atom_kind(cx, a) if _own_model(a) else None
             if k in ('running', 'not-running'):
                 want = a if k == 'running' else f_not(a)
                 if implies(f, want) is None:
@@ -112,6 +139,11 @@ def run(cx: Cx):
 
     # ------------------------------------------------------------ clause 2: scheduler
     fn, ps = scheduler_paths(cx, unroll=2)
+    _LOOP_VARS.clear()
+    for p in ps:
+        for e in p.events:
+            if e.kind == 'iter' and isinstance(e.data['info'].get('var'), Sym):
+                _LOOP_VARS.add(e.data['info']['var'].name.rstrip("'"))
     throw = Sym('throw_error') if 'throw_error' in fn.params else None
     n_nr = n_pairs = 0
     for p in ps:
